@@ -9,7 +9,7 @@ Decided (structure of options.c):
   N1  the letter cursor never passes the terminator of its argument (lone '-', last letter of a bundle)
   M5  argv compaction: writes argv[j] only with j <= i < argc and terminates the vector
 Not decided: final variable values, ordering, the word-count agreement of argument lists."""
-from .. import facts, expr as X, nulcursor, nullness, flow
+from .. import facts, expr as X, nulcursor, nullness, flow, loopstate
 from ..facts import walk
 from ..report import Check, canon
 
@@ -91,7 +91,7 @@ def run(tier="quick"):
                 explanation="mask-only stores, pass-test control of every target store / handler call, loop-progress must-dataflow, "
                             "letter-cursor typestate, argv compaction shape")
     for rid, txt in (("M1", "boolean handler only ORs / AND-NOTs its mask"), ("M2", "target stores and handler calls are under SHOULD_PARSE"),
-                     ("M3", "every way round the main loop advances"), ("N1", "letter cursor never passes the terminator"),
+                     ("M3", "every way round the main loop advances"), ("M6", "per-word state (long/equal flags, value pointer) does not survive an iteration"), ("N1", "letter cursor never passes the terminator"),
                      ("M5", "argv compaction stays inside argv and terminates it")):
         chk.rule(rid, txt)
     prog = facts.extract(only=["options.c"])
@@ -210,6 +210,8 @@ def run(tier="quick"):
            detail="spifopt_parse: a path goes round the main loop without advancing the argument index or the letter cursor: the same option is "
                   "parsed again forever (termination then depends on the bad-option counter)",
            proof="every path back to the loop condition passes i++ / opt++ / opt = argv[i]")
+    # M6 every argument word is read on its own: only the loop header's cursors survive an iteration
+    loopstate.check_item_loop(chk, "M6", parse, main, "argument word")
     # N1 letter cursor
     viol, nchecked = nulcursor.analyse(parse, {o_d}, entry_safe=0)
     for n, kind, msg in viol:
